@@ -393,6 +393,26 @@ def doTrafficRoutingX (ops : StratOps S) (P : Option (Provider S G)) (c : XCtx S
         if ws ≠ [] then ⟨false, false, n2, m, true, false, ws, a2, false⟩
         else routeStepX P c.strategy a2 n2 m
 
+/-! ## a stable Service without `spec.selector` -/
+
+/-- **guard `selectorlessStable`** — the stable Service carries no selector at all (`bare`; legal for the API
+    server: a Service with manually managed Endpoints, an ExternalName Service) and this call of
+    `DoTrafficRouting` gets as far as creating the canary Service (a ref, something to route, both `Get`s
+    answered, stable Service found and not pinned, no grace period running, a canary Service is generated, the
+    revisions are known, no canary Service yet): `createCanaryService` copies the stable spec and assigns the
+    revision label into the nil selector map — `panic: assignment to entry in nil map` — before anything is
+    written.  (A stable Service whose only selector entry is the revision label is not nil: no panic.) -/
+def panicsBare (ops : StratOps S) (c : XCtx S) (a : Api) (n : XNet G) (bare : Bool) : Bool :=
+  bare && c.hasRef && !(ops.noTraffic c.strategy && ops.noMatches c.strategy) &&
+  !a.read.1 && n.stableExists && !(c.lastUpdate == .fresh && decide (c.doGrace > 0)) &&
+  !c.noGen && c.stableRev != "" && c.canaryRev != "" && !a.read.2.read.1 &&
+  n.canarySvc.isNone && n.stableSel.isNone
+
+/-- `Manager.DoTrafficRouting` over a stable Service that may be selector-less (`bare`): what the code does -/
+def doTrafficRoutingB (ops : StratOps S) (P : Option (Provider S G)) (c : XCtx S) (a : Api) (n : XNet G) (m : Mem)
+    (bare : Bool) : XOut G :=
+  if panicsBare ops c a n bare then .panicked n m a else doTrafficRoutingX ops P c a n m
+
 /-- `Manager.InitializeTrafficRouting`: `true` = an error is returned (no API faults modelled) -/
 def initializeX (P : Option (Provider S G)) (c : XCtx S) (n : XNet G) : Bool :=
   if ¬ c.hasRef then false
